@@ -5,4 +5,10 @@ PROPS = {
         "ax": True,
         "level": "proof",
     },
+    "C06": {
+        "vx": ["eval_arms"],
+        "kl": ["baa_kernels"],
+        "ax": True,
+        "level": "proof",
+    },
 }
